@@ -32,35 +32,57 @@ def Er(m, a, i):
     return 1 + ((m + 2 * a + i) % 4)
 
 
-def build(d, b):
+def cname(i, k):
+    """concrete model name of copy k of abstract model i"""
+    return NAMES[i] if k == 0 else '%s_r%d' % (NAMES[i], k)
+
+
+def kfac(k):
+    return 1.0 + 2.0 * k                  # copy k carries the SED of its abstract model times this factor
+
+
+def afac(ac):
+    return 1.0 + 0.5 * (ac // 2)          # concrete aperture ac = abstract aperture ac % 2, times this factor
+
+
+def concrete_aps(b, ra):
+    return None if b['na'] == 1 else [APS[ac % 2] * (10.0 ** (ac // 2)) for ac in range(2 * ra)]
+
+
+def build(d, b, rep=1, ra=1):
+    """pi^-1.  CONCRETE SIZE: every abstract model stands for `rep` concrete models (copy k = the same SED x kfac(k), listed
+    block-wise: all copies 0 in the abstract order, then all copies 1, ...) and the two abstract apertures for 2*ra concrete
+    ones (aperture ac = abstract ac % 2, values x afac(ac)).  Convolution is linear (spec theorem Rebin!Linear), so the
+    expected cell of (copy k, aperture ac) is the spec's cell times kfac(k) afac(ac)."""
     ng = len(GX)
     wav = sorted(12.0 / g for g in GX)                      # increasing wavelength; rank w <-> grid node ng - w
-    aps = None if b['na'] == 1 else APS
+    aps = concrete_aps(b, ra)
     if b['fmt'] == 'perfile':
-        ids = b['tab']
-        names = [NAMES[i] for i in ids]
-        pos = {m: k for k, m in enumerate(b['list'])}
+        ids = [(i, k) for k in range(rep) for i in b['tab']]
+        names = [cname(i, k) for i, k in ids]
+        pos = {(m, k): k * len(b['list']) + j for k in range(rep) for j, m in enumerate(b['list'])}
         os.makedirs(os.path.join(d, 'seds'))
         fw.write_conf(d, aperture_dependent=(b['na'] > 1))
-        for m, i in enumerate(ids):
+        for m, (i, k) in enumerate(ids):
             gx = GX2 if b['gsel'][i - 1] == 2 else GX            # every SED file may come on its own frequency grid
             wav_m = sorted(12.0 / g for g in gx)
             order = b['stored'][i - 1]
-            p = os.path.join(d, 'seds', 'f%d_%s_sed.fits' % (pos[i], NAMES[i]))
-            vf = lambda a, w, i=i: float(Fl(i, a + 1, ng - w))
-            ve = lambda a, w, i=i: float(Er(i, a + 1, ng - w))
-            if sum(ids) % 2:
-                pw.sed_object(NAMES[i], wav_m, aps, vf, ve, order).write(p)
+            p = os.path.join(d, 'seds', 'f%02d_%s_sed.fits' % (pos[(i, k)], cname(i, k)))
+            vf = lambda a, w, i=i, k=k: kfac(k) * afac(a) * float(Fl(i, (a % 2) + 1, ng - w))
+            ve = lambda a, w, i=i, k=k: kfac(k) * afac(a) * float(Er(i, (a % 2) + 1, ng - w))
+            if sum(b['tab'][:2]) % 2:
+                pw.sed_object(cname(i, k), wav_m, aps, vf, ve, order).write(p)
             else:
-                pw.write_sed_raw(p, NAMES[i], wav_m, aps, vf, ve, order, legacy_units=False)
+                pw.write_sed_raw(p, cname(i, k), wav_m, aps, vf, ve, order, legacy_units=False)
         pw.write_parameters(d, names)
     else:
-        ids = b['list']
+        ids = [(i, k) for k in range(rep) for i in b['list']]
         # the cube may store its fluxes in Jy instead of mJy (values scaled accordingly: same physical SEDs)
         cunit, cfac = ('Jy', 1e-3) if b['stored'][1] == 'asc' else ('mJy', 1.0)
-        pw.build_cube(d, [NAMES[i] for i in ids], wav, aps, lambda m, a, w: cfac * float(Fl(ids[m], a + 1, ng - w)),
-                      lambda m, a, w: cfac * float(Er(ids[m], a + 1, ng - w)), order=b['stored'][0], aperture_dependent=(b['na'] > 1),
-                      table_names=[NAMES[i] for i in b['tab']], flux_unit=cunit)
+        pw.build_cube(d, [cname(i, k) for i, k in ids], wav, aps,
+                      lambda m, a, w: cfac * kfac(ids[m][1]) * afac(a) * float(Fl(ids[m][0], (a % 2) + 1, ng - w)),
+                      lambda m, a, w: cfac * kfac(ids[m][1]) * afac(a) * float(Er(ids[m][0], (a % 2) + 1, ng - w)), order=b['stored'][0],
+                      aperture_dependent=(b['na'] > 1), table_names=[cname(i, k) for k in range(rep) for i in b['tab']], flux_unit=cunit)
 
 
 def history_between(d):
@@ -119,9 +141,11 @@ def replay_chunk(items, root, seed, pid='C07', fits=True):
     refs = {}
     for bi, b in items:
         d = tempfile.mkdtemp(dir=root)
-        desc = {'behaviour': {k: b[k] for k in ('tab', 'list', 'stored', 'fmt', 'na', 'gsel')}}
+        rep = 1 + ((bi + seed) // 2) % 2                # 3 or 6 concrete models
+        ra = 1 + ((bi + seed) // 4) % 2                 # 2 or 4 concrete apertures (when the package has apertures)
+        desc = {'behaviour': {k: b[k] for k in ('tab', 'list', 'stored', 'fmt', 'na', 'gsel')}, 'copies_per_model': rep, 'aperture_blocks': ra}
         try:
-            build(d, b)
+            build(d, b, rep, ra)
             try:
                 with fw.quiet():
                     if bi % 3 == 1:
@@ -148,7 +172,8 @@ def replay_chunk(items, root, seed, pid='C07', fits=True):
             for f, fn in enumerate(['fA', 'fB']):
                 r = ConvolvedFluxes.read(os.path.join(d, 'convolved', fn + '.fits'))
                 names = [str(x).strip() for x in r.model_names]
-                want_names = [NAMES[row['model']] for row in b['conv'][f]]
+                crows = [(row, k) for k in range(rep) for row in b['conv'][f]]
+                want_names = [cname(row['model'], k) for row, k in crows]
                 if names != want_names:
                     bad = ('order', '%s: rows %r, spec %r' % (fn, names, want_names))
                     break
@@ -156,20 +181,23 @@ def replay_chunk(items, root, seed, pid='C07', fits=True):
                 if abs(r.central_wavelength.to(u.micron).value - 12.0 / (0.5 * (fx[0] + fx[-1]))) > 1e-9:
                     bad = ('filtwav', '%s: FILTWAV %r' % (fn, r.central_wavelength))
                     break
-                if b['na'] > 1 and (r.apertures is None or not np.allclose(r.apertures.to(u.au).value, APS, rtol=1e-6)):
+                if b['na'] > 1 and (r.apertures is None or len(r.apertures) != 2 * ra or not np.allclose(r.apertures.to(u.au).value, concrete_aps(b, ra), rtol=1e-6)):
                     bad = ('apertures', '%s: apertures %r' % (fn, r.apertures))
                     break
                 fl = r.flux.to(u.mJy).value
                 er = r.error.to(u.mJy).value
                 tol = 2e-6 if b['fmt'] == 'cube' or True else 1e-9
-                for k, row in enumerate(b['conv'][f]):
-                    for a in range(b['na']):
-                        wf = float(frac(row['flux'][a])) * UNU
-                        we = (float(frac(row['err2'][a])) ** 0.5) * UNU
+                if fl.shape != (len(crows), 1 if b['na'] == 1 else 2 * ra) or er.shape != fl.shape:
+                    bad = ('shape', '%s: flux table of shape %r for %d models x %d apertures' % (fn, fl.shape, len(crows), 1 if b['na'] == 1 else 2 * ra))
+                    break
+                for k, (row, kc) in enumerate(crows):
+                    for a in range(1 if b['na'] == 1 else 2 * ra):
+                        wf = float(frac(row['flux'][a % 2])) * UNU * kfac(kc) * afac(a)
+                        we = (float(frac(row['err2'][a % 2])) ** 0.5) * UNU * kfac(kc) * afac(a)
                         if abs(fl[k, a] - wf) > tol * wf:
-                            bad = ('flux', '%s row %d (%s) aperture %d: flux %r, spec %r (=%s x UNU)' % (fn, k, names[k], a, fl[k, a], wf, row['flux'][a]))
+                            bad = ('flux', '%s row %d (%s) aperture %d: flux %r, spec %r (=%s x UNU)' % (fn, k, names[k], a, fl[k, a], wf, row['flux'][a % 2]))
                         elif abs(er[k, a] - we) > tol * we:
-                            bad = ('error', '%s row %d (%s) aperture %d: error %r, spec sqrt(%s) x UNU = %r' % (fn, k, names[k], a, er[k, a], row['err2'][a], we))
+                            bad = ('error', '%s row %d (%s) aperture %d: error %r, spec sqrt(%s) x UNU = %r' % (fn, k, names[k], a, er[k, a], row['err2'][a % 2], we))
                         if bad:
                             break
                     if bad:
@@ -184,11 +212,11 @@ def replay_chunk(items, root, seed, pid='C07', fits=True):
             for memmap in ((False, True) if fits else ()):
                 got = fit_all(d, b['na'], memmap)
                 col.replayed += 1
-                key = (b['na'], tuple(b['gsel']) if b['fmt'] == 'perfile' else (1, 1, 1))
+                key = (b['na'], tuple(b['gsel']) if b['fmt'] == 'perfile' else (1, 1, 1), rep, ra)
                 if key not in refs:
                     refs[key] = got
                 ref = refs[key]
-                if set(got) != set(ref) or any(not (fw.fclose(got[n][i], ref[n][i], 2e-5 if memmap else 1e-7, 1e-6) or
+                if set(got) != set(ref) or any(not (fw.fclose(got[n][i], ref[n][i], 2e-5 if memmap else 1e-7, 2e-5 if memmap else 1e-6) or
                                                     (np.isnan(got[n][i]) and np.isnan(ref[n][i]))) for n in ref for i in range(3)):
                     col.violation('%s:fits_disagree:%s' % (pid, 'memmap' if memmap else 'plain'),
                                   'fits from this %s package (memmap=%s) differ from another variant of the same SEDs: %r vs %r' % (b['fmt'], memmap, got, ref), desc)
@@ -233,4 +261,5 @@ def run(ctx):
     for col in pmap(lambda c: replay_chunk(c, root, ctx.seed), list(enumerate(em))):
         col.merge_into(ctx)
     ctx.assumptions += ['per-file SED files are written alternately with SED.write and as raw FITS per docs/creating_model_packages.rst',
-                        'fits are compared between variants of the same SEDs (paired), float32 memmap path to 2e-5']
+                        'fits are compared between variants of the same SEDs (paired); float32 memmap path to 2e-5 relative / 2e-5 absolute (log10 fluxes of order 14 held in float32 carry 1e-6 absolute error)',
+                        'concrete size: every abstract model stands for 1 or 2 concrete models and the two abstract apertures for 2 or 4 concrete ones (values scaled per copy / aperture block; expected cells follow by linearity)']
